@@ -34,7 +34,7 @@ def _case(draw):
     return {
         "params": [jw.enc_spec(s) for s in specs],
         "level": draw(st.sampled_from(["instance", "instance", "class"])),
-        "subset": draw(st.one_of(st.none(), st.lists(st.integers(0, n - 1), min_size=1, max_size=n, unique=True))),
+        "subset": draw(st.one_of(st.none(), st.none(), st.lists(st.integers(0, n - 1), min_size=0, max_size=n, unique=True))),
         "ser_subset_only": draw(st.booleans()),
         # how the instance-level state came about: constructor keywords, or an instance that owns per-instance Parameter
         # objects and follows class defaults reassigned afterwards
@@ -117,7 +117,7 @@ def execute(case):
         _marks(v, marks)
     region = ""
     subset = None if case["subset"] is None else [names[i] for i in case["subset"]]
-    res.label("level:" + case["level"], "subset" if subset else "all")
+    res.label("level:" + case["level"], "all" if subset is None else ("subset" if subset else "empty_subset"))
     for t, *_ in specs:
         res.label("type:" + t)
 
@@ -128,7 +128,7 @@ def execute(case):
     except ValueError as e:
         res.fail("C15.not_standard_json", f"{region}{text!r}: {e}")
         return res
-    want_keys = set(subset) if subset else set(names) | {"name"}
+    want_keys = set(subset) if subset is not None else set(names) | {"name"}
     if set(parsed) != want_keys:
         res.fail("C15.serialized_keys", f"{region}serialize_parameters(subset={subset}) produced keys {sorted(parsed)}, "
                                         f"expected {sorted(want_keys)}")
